@@ -436,6 +436,7 @@ partial def loopIO (h : IO.FS.Stream) : IO Unit := do
   | "SESSION" :: rest => IO.println (runSessionLine rest)
   | ["PARSE", hex] => IO.println (runParse hex)
   | ["PARSE"] => IO.println (runParse "")
+  | ["HEADERKEYS"] => IO.println (",".intercalate Droop.headerKeysModel)
   | ["UNITABLES"] =>
     IO.println s!"S:{showNats pySpaces} D:{",".intercalate (ndZeros.flatMap (fun z => (List.range 10).map (fun i => s!"{z+i}={i}")))} L:{showNats pyLineBreaks}"
   | "DUMP" :: d :: rest =>
